@@ -195,6 +195,14 @@ class PortMachine(Machine):
         r = s.random()
         if r < 0.03:
             return dict(op="port_clear", t=t, how=s.choice(["line", "line", "protocol"]))
+        if cfg["bad"] and r < 0.06:
+            # another client of the same process tries an expression outside the domain
+            # (operands beyond 1..65535); whatever that gives, live expressions are not its business
+            ops_ = s.choice([[80, 70000], [179, 65536], [22, 0, 65536], [0, 80], [70000],
+                             [self._operand(w), 65536 + self._operand(w)]])
+            return dict(op="port_foreign_bad", proto=s.choice(["tcp", "udp"]),
+                        line=" ".join([s.choice(["neq", "neq", "eq", "gt", "range"]),
+                                       *map(str, ops_)]))
         if r < 0.07 and len(slot["operands"]) >= 1:
             # same operator, other operands with the same digit string ("neq 1 2" / "neq 12")
             digits = "".join(str(o) for o in slot["operands"])
@@ -584,6 +592,23 @@ class PortMachine(Machine):
         if self._observe(c) != self._observe(slot["obj"]):
             self._fail("C08.copy", "copy() differs from source")
         slot["obj"] = c
+        return "ok"
+
+    def _op_port_foreign_bad(self, op):
+        """A throw-away expression with operands outside 1..65535, built and dropped by another
+        client.  Its own outcome is not judged (C01/C20 territory); every live expression must
+        still denote what it denoted."""
+        try:
+            q = Port(op["line"], protocol=op["proto"], platform="ios")
+            _ = (q.ports, q.sport)
+            self.probes["foreign_bad_accepted"] += 1
+        except Exception as ex:  # noqa
+            self.probes[f"foreign_bad_raised[{type(ex).__name__}]"] += 1
+        self.faults["foreign_out_of_domain_expression"] += 1
+        for slot in self.slots:
+            fresh = self._build(slot)
+            self._check(fresh, slot, f"new object after a foreign {op['line']!r}")
+            self._check(slot["obj"], slot, f"live object after a foreign {op['line']!r}")
         return "ok"
 
     def _op_port_set_items(self, op):
